@@ -3,6 +3,7 @@ package main
 import (
 	"fmt"
 	"go/types"
+	"os"
 	"sort"
 	"strings"
 
@@ -10,7 +11,7 @@ import (
 )
 
 // emittedNames: constant Gallina names in the backward closure of v (through call arguments).
-func emittedNames(v ssa.Value) []string {
+func emittedNames(v ssa.Value, pt *cfgPath) []string {
 	set := map[string]bool{}
 	seen := map[ssa.Value]bool{}
 	// walkName: a plain string that is used as the callee name
@@ -77,8 +78,26 @@ func emittedNames(v ssa.Value) []string {
 		case *ssa.MakeInterface:
 			walk(x.X)
 		case *ssa.ChangeType:
+			if isCoqNamed(x.Type(), "GallinaIdent") {
+				// GallinaIdent(s) for a plain string s chosen earlier (a constant on this path, or a table value)
+				inner := x.X
+				if ph, ok := inner.(*ssa.Phi); ok && pt != nil {
+					inner = resolveOnPath(*pt, ph)
+				}
+				if cs, ok := constString(inner); ok {
+					set[cs] = true
+					return
+				}
+				walkName(inner)
+			}
 			walk(x.X)
 		case *ssa.Phi:
+			if pt != nil {
+				if rv := resolveOnPath(*pt, x); rv != ssa.Value(x) {
+					walk(rv)
+					return
+				}
+			}
 			for _, e := range x.Edges {
 				walk(e)
 			}
@@ -106,6 +125,12 @@ type caseRow struct {
 }
 
 func caseTable(p *Prog, f *ssa.Function) ([]caseRow, bool) {
+	return caseTableD(p, f, 0)
+}
+
+// caseTableD: a path that returns the result of another translator function of the package unchanged
+// (tail delegation: the rest of a split handler) is continued with that function's rows.
+func caseTableD(p *Prog, f *ssa.Function, depth int) ([]caseRow, bool) {
 	paths, ok := p.enumPaths(f, 0, 20000)
 	if !ok {
 		return nil, false
@@ -117,7 +142,7 @@ func caseTable(p *Prog, f *ssa.Function) ([]caseRow, bool) {
 			continue
 		}
 		var cases []string
-		for k := range pt.rels() {
+		for k := range pt.relsResolved() {
 			if i := topLevelIndex(k, " == "); i >= 0 {
 				a, b := k[:i], k[i+4:]
 				for _, pr := range [][2]string{{a, b}, {b, a}} {
@@ -154,7 +179,7 @@ func caseTable(p *Prog, f *ssa.Function) ([]caseRow, bool) {
 			continue
 		}
 		v := resolveOnPath(pt, ret.Results[0])
-		em := emittedNames(v)
+		em := emittedNames(v, &pt)
 		// a name taken from a constant package-level map: one row per entry of the map
 		expanded := false
 		for _, e := range em {
@@ -184,6 +209,54 @@ func caseTable(p *Prog, f *ssa.Function) ([]caseRow, bool) {
 					}
 				}
 				rows = append(rows, caseRow{cs, append(others, tab[k]), ret, pt})
+			}
+		}
+		if !expanded && len(em) == 0 && depth < 3 {
+			// direct tail call, or the first result of a (value, ok) helper under the fact ok == true
+			var c *ssa.Call
+			okIdx := -1
+			if cc, ok := v.(*ssa.Call); ok {
+				c = cc
+			} else if ex, ok := v.(*ssa.Extract); ok && ex.Index == 0 {
+				if cc, ok := ex.Tuple.(*ssa.Call); ok && cc.Call.Signature().Results().Len() == 2 {
+					if rs := pt.relsResolved(); rs[sk(cc)+"#1 == true"] || rs["true == "+sk(cc)+"#1"] {
+						c, okIdx = cc, 1
+					}
+				}
+			}
+			if c != nil {
+				if g := calleeOf(&c.Call); g != nil && g != f && g.Pkg == f.Pkg && len(g.Blocks) > 0 && len(g.Blocks) <= 60 {
+					if sub, ok := caseTableD(p, g, depth+1); ok {
+						// callee facts speak about its parameters: rename them to the arguments
+						psub := map[string]string{}
+						for i, pa := range g.Params {
+							if i < len(c.Call.Args) {
+								psub[pa.Name()] = sk(c.Call.Args[i])
+							}
+						}
+						for _, sr := range sub {
+							if okIdx >= 0 {
+								// only the callee's rows that return ok == true
+								if okIdx >= len(sr.Ret.Results) {
+									continue
+								}
+								if k, isC := resolveOnPath(sr.Path, sr.Ret.Results[okIdx]).(*ssa.Const); !isC || k.Value == nil || k.Value.String() != "true" {
+									continue
+								}
+							}
+							cs := append([]string{}, cases...)
+							for _, sc := range sr.Cases {
+								parts := strings.SplitN(sc, " @ ", 2)
+								if len(parts) == 2 {
+									cs = append(cs, parts[0]+" @ "+substIdents(parts[1], psub))
+								}
+							}
+							sort.Strings(cs)
+							rows = append(rows, caseRow{cs, sr.Emitted, sr.Ret, pt})
+						}
+						expanded = true
+					}
+				}
 			}
 		}
 		if !expanded {
@@ -363,6 +436,11 @@ func checkC03(p *Prog, r *Report) {
 	}
 	if f := p.Func(Mod, "Ctx.newExpr"); f != nil {
 		rows, ok := caseTable(p, f)
+		if os.Getenv("VERIF_DEBUG") == "R03a" {
+			for _, row := range rows {
+				fmt.Println("R03a newExpr row", row.Cases, row.Emitted, sk(resolveOnPath(row.Path, row.Ret.Results[0])))
+			}
+		}
 		if ok {
 			want := map[string]string{"Mutex": "lock.new", "WaitGroup": "waitgroup.New"}
 			seen := map[string]bool{}
@@ -456,37 +534,67 @@ func c03Recognisers(p *Prog, r *Report) {
 		return
 	}
 	r.Func(FuncName(sm))
-	rm := p.Rels(sm)
-	n := 0
+	// the generic (user-defined receiver) method path: the coq.MethodName call in selectorMethod or in a
+	// function it hands the selector to; the facts there include what the callers established
+	var scope []*ssa.Function
+	scope = append(scope, sm)
 	p.instrs(sm, func(b *ssa.BasicBlock, i int, in ssa.Instruction) {
-		c, ok := in.(*ssa.Call)
-		if !ok || calleeName(c) != coqPkg+".MethodName" {
-			return
-		}
-		n++
-		rs := p.RelsAt(rm, c)
-		var missing []string
-		for _, rec := range []string{"isLockRef", "isCondVar", "isWaitGroup"} {
-			g := p.Func(Mod, rec)
-			okF := false
-			// the calls of the recogniser in this function, under the key the facts use for them
-			p.instrs(sm, func(b *ssa.BasicBlock, i int, in2 ssa.Instruction) {
-				c2, ok := in2.(*ssa.Call)
-				if !ok || g == nil || calleeOf(&c2.Call) != g {
-					return
+		if c, ok := in.(*ssa.Call); ok {
+			if g := calleeOf(&c.Call); g != nil && g.Pkg == sm.Pkg && g != sm && len(g.Params) > 0 {
+				for _, pa := range g.Params {
+					if types.TypeString(pa.Type(), nil) == "*go/ast.SelectorExpr" {
+						scope = append(scope, g)
+						break
+					}
 				}
-				ck := sk(c2)
-				if rs[ck+" == false"] || rs["false == "+ck] {
-					okF = true
-				}
-			})
-			if !okF {
-				missing = append(missing, rec)
 			}
 		}
-		r.Check("R03b", "selectorMethod consults the sync recognisers before the generic method path", instrPos(in), len(missing) == 0,
-			fmt.Sprintf("the user-method translation is reachable without %v having answered false: a *sync.Mutex method could be translated as an ordinary method call", missing))
 	})
+	// recogniser calls anywhere in the scope, with root identifiers blanked (parameter names differ per function)
+	recKeys := map[string][]string{}
+	for _, rec := range []string{"isLockRef", "isCondVar", "isWaitGroup"} {
+		g := p.Func(Mod, rec)
+		for _, fn := range scope {
+			p.instrs(fn, func(b *ssa.BasicBlock, i int, in2 ssa.Instruction) {
+				if c2, ok := in2.(*ssa.Call); ok && g != nil && calleeOf(&c2.Call) == g {
+					recKeys[rec] = append(recKeys[rec], canonRoots(sk(c2)))
+				}
+			})
+		}
+	}
+	n := 0
+	for _, fn := range scope {
+		rm := p.Rels(fn)
+		entry := p.entryRels(fn)
+		p.instrs(fn, func(b *ssa.BasicBlock, i int, in ssa.Instruction) {
+			c, ok := in.(*ssa.Call)
+			if !ok || calleeName(c) != coqPkg+".MethodName" {
+				return
+			}
+			n++
+			rs := p.RelsAt(rm, c)
+			for k := range entry {
+				rs[k] = true
+			}
+			var missing []string
+			for _, rec := range []string{"isLockRef", "isCondVar", "isWaitGroup"} {
+				okF := false
+				for k := range rs {
+					ck := canonRoots(k)
+					for _, rk := range recKeys[rec] {
+						if ck == rk+" == false" || ck == "false == "+rk {
+							okF = true
+						}
+					}
+				}
+				if !okF {
+					missing = append(missing, rec)
+				}
+			}
+			r.Check("R03b", "selectorMethod consults the sync recognisers before the generic method path", instrPos(in), len(missing) == 0,
+				fmt.Sprintf("the user-method translation is reachable without %v having answered false: a *sync.Mutex method could be translated as an ordinary method call", missing))
+		})
+	}
 	if n == 0 {
 		r.Unknown("R03b", "selectorMethod generic path", sm.Pos(), "no MethodName call")
 	}
